@@ -360,6 +360,40 @@ def _always_exits(stmts) -> bool:
     return False
 
 
+def _falls_through(stmts):
+    """Condition (True / False / an expression AST) under which control runs off the end of the block."""
+    if not stmts:
+        return True
+    last = stmts[-1]
+    if isinstance(last, (ast.Return, ast.Raise, ast.Continue, ast.Break)):
+        return False
+    if not isinstance(last, ast.If):
+        return True
+    a, b = _falls_through(last.body), _falls_through(last.orelse)
+    t = last.test
+
+    def AND(x, y):
+        if x is False or y is False:
+            return False
+        if x is True:
+            return y
+        if y is True:
+            return x
+        return ast.copy_location(ast.BoolOp(op=ast.And(), values=[x, y]), t)
+
+    def OR(x, y):
+        if x is True or y is True:
+            return True
+        if x is False:
+            return y
+        if y is False:
+            return x
+        return ast.copy_location(ast.BoolOp(op=ast.Or(), values=[x, y]), t)
+
+    nt = ast.copy_location(ast.UnaryOp(op=ast.Not(), operand=t), t)
+    return OR(AND(t, a), AND(nt, b))
+
+
 def _block_of(node):
     p = parent(node)
     if p is None:
@@ -394,6 +428,12 @@ def path_conditions(stmt: ast.AST, func: ast.AST):
                         conds.append((prev.test, False, prev, "prior"))
                     elif else_exit and not body_exit:
                         conds.append((prev.test, True, prev, "prior"))
+                    elif not body_exit and not else_exit:
+                        # an if / elif / else chain some of whose arms leave: control gets past it under the disjunction of
+                        # the arms that fall through
+                        fall = _falls_through([prev])
+                        if fall is not True and fall is not False:
+                            conds.append((fall, True, prev, "prior"))
             if isinstance(p, ast.If):
                 conds.append((p.test, fld == "body", p, "if"))
             elif isinstance(p, ast.While) and fld == "body":
